@@ -33,6 +33,32 @@ def appended_names(stmts):
     return out
 
 
+def carried_append_pairs(body, carried, assigned):
+    """[(statement, list name, variable name)] for top-level `xs.append(v)` statements of a loop body where v is a loop-carried
+    variable that is not assigned earlier in the body and is re-assigned (at the top level) later on."""
+    out = []
+    assigned_so_far = set()
+    for i, st in enumerate(body):
+        if isinstance(st, ast.Expr) and isinstance(st.value, ast.Call) and isinstance(st.value.func, ast.Attribute) and st.value.func.attr == "append" \
+                and isinstance(st.value.func.value, ast.Name) and len(st.value.args) == 1 and not st.value.keywords \
+                and isinstance(st.value.args[0], ast.Name):
+            sname, vname = st.value.func.value.id, st.value.args[0].id
+            later = set()
+            for x in body[i + 1:]:
+                if isinstance(x, ast.Assign):
+                    for t in x.targets:
+                        for n in ast.walk(t):
+                            if isinstance(n, ast.Name):
+                                later.add(n.id)
+            other_uses = sum(1 for x in body for n in ast.walk(x) if isinstance(n, ast.Name) and n.id == sname)
+            if vname in carried and vname not in assigned_so_far and vname in later and other_uses == 1:
+                out.append((st, sname, vname))
+        for n in ast.walk(st):
+            if isinstance(n, ast.Name) and isinstance(n.ctx, ast.Store):
+                assigned_so_far.add(n.id)
+    return out
+
+
 def upward_exposed(stmts, candidates):
     """Names of `candidates` that may be read in the block before being assigned."""
     exposed = set()
@@ -181,14 +207,26 @@ class LoopMixin:
         lo, hi, idx, elem = self.iter_family(it, frame, st)
         rec.k, rec.lo, rec.hi, rec.n = idx, lo, hi, hi - lo
         rec.iter_val, rec.elem = it, elem
-        rec.carried_before, rec.carried_after = {}, {}
+        rec.carried_before, rec.carried_after, rec.placeholders = {}, {}, {}
         try:
             assigned = assigned_names(st.body)
             apps = appended_names(st.body)
             carried = upward_exposed(st.body, assigned)
             state = {"rec": rec, "k": idx, "lo": lo, "series": {}, "aug": {}}
+            # a state variable that is recorded and then advanced ( xs.append(cur); ...; cur = next ) is the same sequence as
+            # xs = [cur0]; ...; xs.append(next); ...; xs.pop(-1): it is analysed in that indexed form
+            recorded = {}
+            for stx, sname, vname in carried_append_pairs(body, carried, assigned):
+                curl, curv = frame.lookup(sname), frame.lookup(vname)
+                if isinstance(curl, ListV) and curl.kind == "lit" and curv is not None and curv is not NONE and not isinstance(curv, (ListV, Opaque)) \
+                        and sname not in recorded and vname not in [v for _, v in recorded.values()]:
+                    recorded[sname] = (stx, vname)
+                    curl.items.append(curv)
+            if recorded:
+                skip = {id(stx) for stx, _ in recorded.values()}
+                body = [x for x in body if id(x) not in skip]
             # series: lists appended in the body
-            for name in apps:
+            for name in sorted(set(apps) | set(recorded)):
                 cur = frame.lookup(name)
                 if isinstance(cur, ListV) and cur.kind == "lit":
                     s = ListV("series", name=name, init=list(cur.items), appended=[], k=idx, lo=lo, n=hi - lo,
@@ -198,22 +236,31 @@ class LoopMixin:
                     rec.series[name] = s
                 elif isinstance(cur, ListV) and cur.kind == "series" and not cur.closed:
                     pass
-                elif cur is None:
-                    pass
+                elif cur is None or not isinstance(cur, ListV):
+                    pass   # not a list: an object with its own append method (evaluated as the call it is)
                 else:
                     raise Unmodelled("append in a loop to the non-literal list %s at %s" % (name, frame.loc(st)))
             # loop-carried scalars
             saved = {}
+            rec_vars = {v: sname for sname, (_, v) in recorded.items()}
             for name in carried:
                 cur = frame.lookup(name)
                 if cur is None:
                     continue
+                if name in rec_vars:
+                    sr = state["series"][rec_vars[name]]
+                    self._set_var(frame, name, self.series_read(sr, Rat.atom(idx) - lo + (len(sr.init) - 1), frame, st))
+                    continue
                 saved[name] = cur
                 rec.carried_before[name] = cur
                 if isinstance(cur, Num):
-                    self._set_var(frame, name, Num(Rat.sym("#acc.%s" % name, ("bound",))))
+                    ph = Num(Rat.sym("#acc.%s" % name, ("bound",)))
                 else:
-                    self._set_var(frame, name, Opaque("loop-carried %s" % name))
+                    ph = Opaque("loop-carried %s" % name)
+                rec.placeholders[name] = ph
+                self._set_var(frame, name, ph)
+            rec.local_before = {name: frame.lookup(name) for name in assigned if name not in saved}
+            rec.local_after = {}
             self.assign(st.target, elem, frame)
             self.ctx.loop_stack.append(state)
             saved_unrolled, self.ctx.unrolled = getattr(self.ctx, "unrolled", 0), 0
@@ -222,11 +269,16 @@ class LoopMixin:
             finally:
                 self.ctx.loop_stack.pop()
                 self.ctx.unrolled = saved_unrolled
+            for sname, (stx, vname) in recorded.items():
+                self.series_append(state["series"][sname], frame.lookup(vname), frame, stx)
             self.ctx.assumptions.add("loop at %s executes at least once (its body is analysed as the inductive step)"
                                      % frame.loc(st))
             # close series
             for name, s in state["series"].items():
                 self.close_series(s, frame, st)
+            for sname, (stx, vname) in recorded.items():
+                self.series_pop(state["series"][sname], [Num(-1)], frame, stx)
+                self._set_var(frame, vname, Opaque("loop-carried %s" % vname))
             # accumulators
             for name, before in saved.items():
                 after = frame.lookup(name)
@@ -248,6 +300,7 @@ class LoopMixin:
                     self._set_var(frame, name, Opaque("loop-carried %s" % name))
             for name in assigned - set(saved) - set(state["series"]):
                 v = frame.lookup(name)
+                rec.local_after[name] = v
                 if v is not None and not isinstance(v, ListV):
                     rec.post[name] = v
                     self._set_var(frame, name, Opaque("value of loop-local %s after the loop" % name))
